@@ -345,7 +345,8 @@ func init() {
 				}
 				u := FuncUnit{fn, fd, pkg}
 				fc := c.cfgOf(u, nil)
-				hasCall := func(b *cfg.Block, target *types.Func) bool {
+				var hasCall func(b *cfg.Block, target *types.Func) bool
+				hasCall = func(b *cfg.Block, target *types.Func) bool {
 					callsTarget := func(info *types.Info, n ast.Node) bool {
 						for _, ce := range callsIn(n, false) {
 							if originOf(Callee(info, ce)) == target {
@@ -361,6 +362,86 @@ func init() {
 						}
 					}
 					return false
+				}
+				// flagGuaranteed: b is entered only over the true edge of `if <flag>` where <flag> is a boolean
+				// result of a helper of the package — `reenter, lerr := env.unwindTailRec(ctx, r)` — and the
+				// helper hands back anything but the constant false in that position only after a node
+				// accepted by pred: what the helper did before saying `go on` was done on this path
+				flagGuaranteed := func(b *cfg.Block, pred func(info *types.Info, n ast.Node) bool) bool {
+					info := pkg.TypesInfo
+					for _, pb := range fc.G.Blocks {
+						if !fc.Live(pb) || len(pb.Succs) != 2 || pb.Succs[0] != b {
+							continue
+						}
+						cond := fc.CondOf(pb)
+						if cond == nil {
+							continue
+						}
+						flag := identObj(info, ast.Unparen(cond))
+						if flag == nil {
+							continue
+						}
+						dc, idx, ndef := definingCall(info, fd.Body, flag)
+						if dc == nil || ndef != 1 {
+							continue
+						}
+						h := originOf(Callee(info, dc))
+						hd := c.declOf[h]
+						if h == nil || hd == nil || hd.Body == nil || h.Pkg() != fn.Pkg() {
+							continue
+						}
+						hu := FuncUnit{h, hd, c.pkgOf[hd]}
+						hinfo := hu.Pkg.TypesInfo
+						hfc := c.cfgOf(hu, nil)
+						through := hfc.blocksWith(func(n ast.Node) bool { return c.nodeMust(hinfo, hu.Pkg.Types, n, pred) })
+						if len(through) == 0 {
+							continue
+						}
+						good, ntrue := true, 0
+						for _, hb := range hfc.G.Blocks {
+							if !hfc.Live(hb) {
+								continue
+							}
+							for _, nd := range hb.Nodes {
+								rs, ok := nd.(*ast.ReturnStmt)
+								if !ok {
+									continue
+								}
+								if idx >= len(rs.Results) {
+									good = false // bare return of named results: not followed
+									continue
+								}
+								if isBoolConst(hinfo, rs.Results[idx], false) {
+									continue
+								}
+								ntrue++
+								if !through[hb] && hfc.reachableFromAvoidingBlocks(hfc.G.Blocks[0], hb, through) {
+									good = false
+								}
+							}
+						}
+						if good && ntrue > 0 {
+							return true
+						}
+					}
+					return false
+				}
+				hasCall0 := hasCall
+				hasCall = func(b *cfg.Block, target *types.Func) bool {
+					if hasCall0(b, target) {
+						return true
+					}
+					if target == call {
+						return false
+					}
+					return flagGuaranteed(b, func(info *types.Info, n ast.Node) bool {
+						for _, ce := range callsIn(n, false) {
+							if originOf(Callee(info, ce)) == target {
+								return true
+							}
+						}
+						return false
+					})
 				}
 				// cycles through the block calling env.call
 				cyc := fc.cyclicSCCs(nil)
@@ -385,6 +466,11 @@ func init() {
 					resets := fc.blocksWith(func(n ast.Node) bool {
 						return c.nodeMust(pkg.TypesInfo, pkg.Types, n, storesFalse)
 					})
+					for _, b := range fc.G.Blocks {
+						if fc.Live(b) && !resets[b] && flagGuaranteed(b, storesFalse) {
+							resets[b] = true
+						}
+					}
 					{
 						rest := fc.cyclicSCCs(func(b *cfg.Block) bool { return resets[b] })
 						still := false
